@@ -73,6 +73,12 @@ var digitsRE = regexp.MustCompile(`[0-9]+`)
 func panicSig(p *lx.Panic) string {
 	msg := fmt.Sprint(p.Val)
 	msg = digitsRE.ReplaceAllString(msg, "N")
+	if i := strings.Index(msg, "interface conversion:"); i >= 0 {
+		msg = msg[:i] + "interface conversion"
+	}
+	if i := strings.Index(msg, "reflect:"); i >= 0 {
+		msg = msg[:i] + "reflect panic"
+	}
 	if len(msg) > 100 {
 		msg = msg[:100]
 	}
